@@ -397,7 +397,9 @@ fn m_read(f: &[String]) -> String {
 	let total = data.len();
 	let mut r = FragReader::new(data, chunks, fail);
 	let mut out = String::new();
-	match slippi::read(&mut r, Some(&opts)) {
+	// 'N' in the option string: call with opts = None (the API's own defaults)
+	let o = if f[1].contains('N') { None } else { Some(&opts) };
+	match slippi::read(&mut r, o) {
 		Ok(g) => {
 			writeln!(out, "OK").unwrap();
 			writeln!(out, "consumed={}/{}", r.consumed().min(total), total).unwrap();
@@ -462,12 +464,14 @@ fn m_rt(f: &[String]) -> String {
 	out
 }
 
-// incr: <hex> <chunks> <verbose 0/1>
+// incr: <hex> <chunks> <verbose 0/1> [a]
 fn m_incr(f: &[String]) -> String {
 	use slippi::de::{parse_event, parse_header, parse_metadata, parse_start};
 	let data = unhex(&f[0]);
 	let chunks = parse_chunks(&f[1]);
 	let verbose = f.get(2).map(|s| s == "1").unwrap_or(false);
+	// "a": keep calling parse_event until bytes_read reaches the declared length (do not stop at the first Game End)
+	let all = f.get(3).map(|s| s == "a").unwrap_or(false);
 	let mut r = FragReader::new(data, chunks, None);
 	let mut out = String::new();
 	let raw_len = match parse_header(&mut r, None) {
@@ -515,7 +519,7 @@ fn m_incr(f: &[String]) -> String {
 					}
 				}
 				n += 1;
-				if code == 0x39 {
+				if code == 0x39 && !all {
 					break;
 				}
 			}
@@ -583,7 +587,8 @@ fn m_slpp(f: &[String]) -> String {
 	let data = unhex(&f[0]);
 	let opts = slp_opts(&f[1]);
 	let mut out = String::new();
-	let g = match slippi::read(io::Cursor::new(&data), Some(&opts)) {
+	let o = if f[1].contains('N') { None } else { Some(&opts) };
+	let g = match slippi::read(io::Cursor::new(&data), o) {
 		Ok(g) => g,
 		Err(e) => {
 			writeln!(out, "{}", err_class(&e)).unwrap();
@@ -607,7 +612,7 @@ fn m_slpp(f: &[String]) -> String {
 	let po = ppi::de::Opts {
 		skip_frames: f[3].contains('s'),
 	};
-	let g2 = match ppi::read(io::Cursor::new(&arch), Some(&po)) {
+	let g2 = match ppi::read(io::Cursor::new(&arch), if f[3].contains('N') { None } else { Some(&po) }) {
 		Ok(g) => g,
 		Err(e) => {
 			writeln!(out, "slpp.read={}", err_class(&e)).unwrap();
@@ -660,7 +665,7 @@ fn m_slppread(f: &[String]) -> String {
 		skip_frames: f[1].contains('s'),
 	};
 	let mut out = String::new();
-	match ppi::read(io::Cursor::new(&data), Some(&po)) {
+	match ppi::read(io::Cursor::new(&data), if f[1].contains('N') { None } else { Some(&po) }) {
 		Ok(g) => {
 			writeln!(out, "OK").unwrap();
 			if f.get(2).map(|s| s == "1").unwrap_or(true) {
